@@ -303,6 +303,18 @@ let () =
               { s with store = set_store s.store (int_of_string i) (Some (N (l, c, nm, a, ct'))) }
             | _ -> s)
          end else s
+       | ["vsubsettext"; i; k; h] ->
+         (* <k-th content item of slot i .toElement()> = String   (Variant::operator=(const String&) on a content item, reached through
+            the element: `Xml::Element c = e; c.content.front() = "new";`).  Three steps of the proved alphabet with the hidden slot
+            nslots as the temporary: a fresh text Variant, the item assigned from it in place, the temporary destroyed - the item then
+            holds a text block of its own with count 1, whatever it held before (the code writes in place when the item is a text block
+            with count 1 and allocates otherwise: the same values and counts) *)
+         let i' = nat i and tmp = nat_of_int nslots in
+         let steps = [VText (tmp, bytes_of_hex h); VSubAssign (i', nat k, tmp); VDel tmp] in
+         if spec then begin
+           let hold = (match s.hold with Some (hd, _) when hd = int_of_string i -> None | hd -> hd) in
+           { s with store = List.fold_left vstep s.store steps; hold = hold }
+         end else { s with hs = List.fold_left (fun hs o -> hstep hs (HOp o)) s.hs steps }
        | ["vassignsubm"; i; k] ->
          (* node = node.toElement().content[k]:  mutable access (touch), then the value of the own k-th content item *)
          let i' = nat i in
